@@ -19,6 +19,12 @@ fn main() {
         }
         return;
     }
+    if args[0] == "derived" {
+        // debugging aid: print the derived schema of corpus types
+        use apache_avro::AvroSchema;
+        println!("{}", serde_json::to_string(&vcore::corpus::UnionHolder::get_schema()).unwrap_or_default());
+        return;
+    }
     let id = args[0].to_uppercase();
     let mut i = 1;
     let mut replay = None;
@@ -70,6 +76,8 @@ fn main() {
         "C13" => props::c13::run(chk),
         "C14" => props::c14::run(chk),
         "C15" => props::c15::run(chk),
+        "C16" => props::c16::run(chk),
+        "C17" => props::c17::run(chk),
         "C18" => props::c18::run(chk),
         "C20" => props::c20::run(chk),
         _ => infra(&format!("no check for {id}")),
